@@ -31,14 +31,39 @@ def discover_inflight_pair(ctx: Ctx, c: Optional[Collector] = None) -> Tuple[str
     fi = ctx.func(SIMPROC)
     for e in s.of_kind("store"):
         tgt, val = e.term[1], e.term[2]
+        take = None
         if val[0] == "call" and val[1] == T.glob("heapq.heappop") and len(val[2]) == 1 and val[2][0][0] == "attr" and tgt[0] == "attr" and tgt[1] == val[2][0][1]:
-            holder, heap = tgt[2], val[2][0][2]
+            take, heap_t = "heappop", val[2][0]
+        elif val[0] == "call" and val[1][0] == "attr" and val[1][2] == "pop" and val[1][1][0] == "attr" and tgt[0] == "attr" and tgt[1] == val[1][1][1] and val[2] in ((T.const(0),), ()):
+            take, heap_t = ("pop(0)" if val[2] else "pop()"), val[1][1]
+        if take is not None:
+            holder, heap = tgt[2], heap_t[2]
             # suspension points between the pop and the clearing of the holder
             g = ctx.cfg(SIMPROC)
             clears = [x for x in s.of_kind("store") if x.term[1] == tgt and x.term[2] == T.NONE]
             if c is not None:
+                # how the queue is filled decides how its minimum may be taken
+                pushes = set()
+                for f2 in analysis_units(ctx.prog):
+                    for x in summarise(ctx.prog, f2).of_kind("call"):
+                        a0 = x.term[2][0] if x.term[2] else None
+                        if a0 is not None and a0[0] == "attr" and a0[2] == heap:
+                            if x.term[1] == T.glob("heapq.heappush"):
+                                pushes.add("heappush")
+                            elif x.term[1][0] == "glob" and x.term[1][1].startswith("bisect.insort"):
+                                pushes.add("insort")
+                        if x.term[1][0] == "attr" and x.term[1][2] in ("append", "insert") and x.term[1][1][0] == "attr" and x.term[1][1][2] == heap:
+                            pushes.add(x.term[1][2])
+                c.info["queue_discipline"] = sorted(pushes) + [take]
                 if not clears:
                     c.bad("INFLIGHT", SIMPROC, f"holder={holder} heap={heap}", "the in-flight holder is never cleared after the step", ctx.loc(fi, e))
+                elif take != "heappop" and "heappush" in pushes:
+                    c.bad("INFLIGHT", SIMPROC, f"holder={holder} heap={heap}", f"{heap} is filled with heappush (a binary heap: only element 0 is in place) but the next step is taken with list.{take}: "
+                          "what remains is not a heap, so a later step can end up in front of an earlier pending one, which is then hidden from the progress bounds and from the wait set", ctx.loc(fi, e))
+                elif take == "heappop" and pushes - {"heappush"}:
+                    c.bad("INFLIGHT", SIMPROC, f"holder={holder} heap={heap}", f"{heap} is filled with {sorted(pushes - {'heappush'})} but taken with heappop: the heap invariant is not maintained", ctx.loc(fi, e))
+                elif take == "pop()":
+                    c.bad("INFLIGHT", SIMPROC, f"holder={holder} heap={heap}", "the *last* element of the queue is taken as the next step", ctx.loc(fi, e))
                 else:
                     sus = g.suspension_between(g.key(e.stmt), g.key(clears[0].stmt))
                     c.ok("INFLIGHT", SIMPROC, f"holder={holder} heap={heap}", f"pop at line {e.lineno}, cleared at line {clears[0].lineno}, {len(sus)} suspension point(s) in between (other tasks observe the heap without its minimum)", ctx.loc(fi, e))
